@@ -303,7 +303,11 @@ pub fn build_abiding(g: &Genome) -> Built {
                     }
                 }
                 LayoutGene::Obs(r) => {
-                    if !o_idx.is_empty() {
+                    // known finding (C09/C02, panic at call_graph/codegen.rs:242): an observer
+                    // registered in a *nested* blueprint while a parent-scope middleware shares a
+                    // fallible request-scoped value with the nested route crashes the compiler.
+                    // Observers are therefore registered in the root blueprint only.
+                    if !o_idx.is_empty() && depth == 0 {
                         out.push(Reg::Comp { idx: o_idx[pick(*r, o_idx.len())] });
                     }
                 }
